@@ -14,19 +14,38 @@ type Task struct {
 	Program string      // registered program
 	Config  interface{} // marshalled to JSON for the factory
 	Horizon int         // step horizon of one execution (0 = 100000)
+	Rungs   int         // run only the first Rungs rungs of Limits.Rungs for this task (0 = all)
+}
+
+// Rung is one finite schedule space: every schedule with at most Bound
+// preemptions (switches away from a thread that could have continued) and at
+// most MaxFree non-default choices at the other decision points, where the
+// running thread blocked, finished, slept or was de-prioritised as a spinner
+// and the default is the lowest thread id (MaxFree < 0: unlimited = pure
+// preemption bounding, the CHESS space).
+type Rung struct {
+	Bound   int
+	MaxFree int
+}
+
+func (r Rung) String() string {
+	if r.MaxFree < 0 {
+		return fmt.Sprintf("preemptions<=%d", r.Bound)
+	}
+	return fmt.Sprintf("preemptions<=%d,free-switch-deviations<=%d", r.Bound, r.MaxFree)
 }
 
 // Limits says how far to explore.
 type Limits struct {
-	Bounds       []int     // preemption bounds to run, ascending (e.g. 0,1,2)
-	MaxDev       int       // additional cap on non-default choices per schedule (0 = none)
+	Rungs        []Rung    // spaces to exhaust, in this order (cheapest first)
 	Deadline     time.Time // zero = none; passes cut by it are reported incomplete
 	NoAfterLoads bool      // reduction: no scheduling point after atomic loads
 }
 
 // Pass is the result of exploring one task under one bound.
 type Pass struct {
-	Bound      int
+	Rung       Rung
+	RungIndex  int
 	Complete   bool
 	Jobs       int
 	Executions int64
@@ -55,8 +74,9 @@ type TaskReport struct {
 // Report is the result of Explore.
 type Report struct {
 	Tasks          []*TaskReport
-	BoundCompleted int // largest bound completed for EVERY task (-1 = none)
-	Exhaustive     bool
+	Rungs          []Rung
+	RungsCompleted int  // number of leading rungs completed for every task they apply to
+	Exhaustive     bool // all rungs completed
 	WallS          float64
 }
 
@@ -114,14 +134,14 @@ func (a *passAcc) add(r *JobResult) {
 	}
 }
 
-// Explore runs every task under every bound of lim.Bounds (all tasks under
-// bound b before any task under the next bound), sharding each (task, bound)
-// pass over the executor's workers by first-level subtrees.  An internal
+// Explore exhausts, for every task, the rungs of lim.Rungs in order (all tasks
+// on rung k before any task on rung k+1), sharding each (task, rung) pass over
+// the executor's workers by first-level subtrees.  An internal
 // error of any execution (divergent replay, failed determinism proof) ends
 // the process with exit code 2.
 func Explore(ex Executor, tasks []Task, lim Limits) *Report {
 	start := time.Now()
-	rep := &Report{BoundCompleted: -1}
+	rep := &Report{Rungs: lim.Rungs}
 	for _, t := range tasks {
 		rep.Tasks = append(rep.Tasks, &TaskReport{Task: t})
 	}
@@ -138,9 +158,10 @@ func Explore(ex Executor, tasks []Task, lim Limits) *Report {
 		dl = lim.Deadline.UnixNano() / 1e6
 	}
 	expired := func() bool { return dl > 0 && time.Now().UnixNano()/1e6 > dl }
-	sem := make(chan struct{}, ex.Workers()*3)
+	sem := make(chan struct{}, ex.Workers()*4)
 	allDone := true
-	for _, bound := range lim.Bounds {
+	for ri, rung := range lim.Rungs {
+		bound := rung.Bound
 		if expired() {
 			allDone = false
 			break
@@ -149,15 +170,18 @@ func Explore(ex Executor, tasks []Task, lim Limits) *Report {
 		accs := make([]*passAcc, len(tasks))
 		for ti := range tasks {
 			t := tasks[ti]
+			if t.Rungs > 0 && ri >= t.Rungs {
+				continue
+			}
 			cfg, err := json.Marshal(t.Config)
 			if err != nil {
 				InternalError("task %s: config: %v", t.Label, err)
 			}
-			acc := &passAcc{p: &Pass{Bound: bound, Complete: true, ByPreempt: map[int]int64{}, Kinds: map[string]int64{}, Outcomes: map[string]int64{}},
+			acc := &passAcc{p: &Pass{Rung: rung, RungIndex: ri, Complete: true, ByPreempt: map[int]int64{}, Kinds: map[string]int64{}, Outcomes: map[string]int64{}},
 				classes: map[uint64]struct{}{}, vals: map[uint64]struct{}{}, found: map[string]Found{}}
 			accs[ti] = acc
 			mk := func(mode string) *Job {
-				return &Job{ID: newID(), Mode: mode, Program: t.Program, Config: cfg, Bound: bound, MaxDev: lim.MaxDev, Horizon: t.Horizon, Deadline: dl, NoAfterLoads: lim.NoAfterLoads}
+				return &Job{ID: newID(), Mode: mode, Program: t.Program, Config: cfg, Bound: bound, MaxFree: rung.MaxFree, Horizon: t.Horizon, Deadline: dl, NoAfterLoads: lim.NoAfterLoads}
 			}
 			wg.Add(1)
 			go func() {
@@ -170,20 +194,31 @@ func Explore(ex Executor, tasks []Task, lim Limits) *Report {
 				root := ex.Do(mk("root"))
 				<-sem
 				if root.Err != "" {
-					InternalError("task %s bound %d: %s", t.Label, bound, root.Err)
+					InternalError("task %s (%s): %s", t.Label, rung, root.Err)
 				}
 				acc.add(root)
 				acc.p.RootObs = root.RootObs
 				var cw sync.WaitGroup
-				for _, ch := range root.Children {
+				// first-level subtrees, a few per job (small subtrees first
+				// would starve the pool at the end: keep the order, early
+				// deviations have the largest subtrees)
+				per := len(root.Children)/ex.Workers() + 1
+				if per > 48 {
+					per = 48
+				}
+				for lo := 0; lo < len(root.Children); lo += per {
 					if expired() {
 						acc.mu.Lock()
 						acc.p.Complete = false
 						acc.mu.Unlock()
 						break
 					}
+					hi := lo + per
+					if hi > len(root.Children) {
+						hi = len(root.Children)
+					}
 					j := mk("subtree")
-					j.Prefix, j.ExpN, j.ExpTid = ch.Prefix, ch.ExpN, ch.ExpTid
+					j.Batch = root.Children[lo:hi]
 					cw.Add(1)
 					sem <- struct{}{}
 					go func() {
@@ -191,7 +226,7 @@ func Explore(ex Executor, tasks []Task, lim Limits) *Report {
 						r := ex.Do(j)
 						<-sem
 						if r.Err != "" {
-							InternalError("task %s bound %d subtree %v: %s", t.Label, bound, j.Prefix, r.Err)
+							InternalError("task %s (%s) subtrees %v..: %s", t.Label, rung, j.Batch[0].Prefix, r.Err)
 						}
 						acc.add(r)
 					}()
@@ -202,6 +237,9 @@ func Explore(ex Executor, tasks []Task, lim Limits) *Report {
 		wg.Wait()
 		complete := true
 		for ti, acc := range accs {
+			if acc == nil {
+				continue
+			}
 			acc.p.Classes, acc.p.ValHists = len(acc.classes), len(acc.vals)
 			keys := make([]string, 0, len(acc.found))
 			for k := range acc.found {
@@ -220,9 +258,9 @@ func Explore(ex Executor, tasks []Task, lim Limits) *Report {
 			allDone = false
 			break
 		}
-		rep.BoundCompleted = bound
+		rep.RungsCompleted = ri + 1
 	}
-	rep.Exhaustive = allDone && len(lim.Bounds) > 0 && rep.BoundCompleted == lim.Bounds[len(lim.Bounds)-1]
+	rep.Exhaustive = allDone && len(lim.Rungs) > 0 && rep.RungsCompleted == len(lim.Rungs)
 	rep.WallS = time.Since(start).Seconds()
 	return rep
 }
@@ -265,34 +303,49 @@ func Replay(program string, cfg interface{}, choices []int32, horizon int) (kind
 	return x.Kind, v, x.Trace
 }
 
+// MaxPreemptionBound returns the largest b such that the pure preemption
+// bound b (MaxFree < 0) was completed, and the largest b completed under any
+// free-switch restriction (-1 = none).
+func (rep *Report) MaxPreemptionBound() (pure, restricted int) {
+	pure, restricted = -1, -1
+	for i := 0; i < rep.RungsCompleted; i++ {
+		r := rep.Rungs[i]
+		if r.MaxFree < 0 && r.Bound > pure {
+			pure = r.Bound
+		}
+		if r.Bound > restricted {
+			restricted = r.Bound
+		}
+	}
+	return
+}
+
 // Summary condenses a report into evidence fields shared by all clients.
 func (rep *Report) Summary() map[string]interface{} {
-	type boundSum struct {
-		Bound      int   `json:"bound"`
-		Complete   bool  `json:"complete"`
-		Schedules  int64 `json:"schedules"`
-		Jobs       int   `json:"subtree_jobs"`
-		Classes    int   `json:"distinct_sync_orders"`
-		ValHists   int   `json:"distinct_read_value_histories"`
-		Outcomes   int   `json:"distinct_outcomes"`
-		PointsMin  int   `json:"points_min"`
-		PointsMax  int   `json:"points_max"`
+	type rungSum struct {
+		Space      string  `json:"space"`
+		Tasks      int     `json:"tasks"`
+		Complete   bool    `json:"complete"`
+		Schedules  int64   `json:"schedules"`
+		Jobs       int     `json:"subtree_jobs"`
+		Classes    int     `json:"distinct_sync_orders"`
+		ValHists   int     `json:"distinct_read_value_histories"`
+		Outcomes   int     `json:"distinct_outcomes"`
+		PointsMin  int     `json:"points_min"`
+		PointsMax  int     `json:"points_max"`
 		PointsMean float64 `json:"points_mean"`
 		ChoiceMean float64 `json:"choice_points_mean"`
 	}
-	m := map[int]*boundSum{}
-	var order []int
+	m := map[int]*rungSum{}
 	var total, replays int64
-	kinds := map[string]int64{}
-	byPre := map[string]int64{}
 	for _, tr := range rep.Tasks {
 		for _, p := range tr.Passes {
-			b := m[p.Bound]
+			b := m[p.RungIndex]
 			if b == nil {
-				b = &boundSum{Bound: p.Bound, Complete: true}
-				m[p.Bound] = b
-				order = append(order, p.Bound)
+				b = &rungSum{Space: p.Rung.String(), Complete: true}
+				m[p.RungIndex] = b
 			}
+			b.Tasks++
 			if !p.Complete {
 				b.Complete = false
 			}
@@ -312,32 +365,27 @@ func (rep *Report) Summary() map[string]interface{} {
 			total += p.Executions
 			replays += int64(p.Replays)
 		}
-		if lp := tr.Last(); lp != nil {
-			for k, v := range lp.Kinds {
-				kinds[k] += v
-			}
-			for k, v := range lp.ByPreempt {
-				byPre[fmt.Sprint(k)] += v
-			}
-		}
 	}
-	sort.Ints(order)
-	var bs []*boundSum
-	for _, b := range order {
-		x := m[b]
+	var bs []*rungSum
+	for i := range rep.Rungs {
+		x := m[i]
+		if x == nil {
+			continue
+		}
 		if x.Schedules > 0 {
 			x.PointsMean = float64(int(x.PointsMean/float64(x.Schedules)*10)) / 10
 			x.ChoiceMean = float64(int(x.ChoiceMean/float64(x.Schedules)*10)) / 10
 		}
 		bs = append(bs, x)
 	}
+	pure, restr := rep.MaxPreemptionBound()
 	return map[string]interface{}{
-		"per_bound":                    bs,
-		"max_preemption_bound_completed": rep.BoundCompleted,
-		"schedules_executed_all_passes":  total,
-		"determinism_proof_replays":      replays,
-		"termination_kinds_at_last_completed_bound": kinds,
-		"schedules_by_preemptions_at_last_completed_bound": byPre,
-		"explore_wall_s": float64(int(rep.WallS*10)) / 10,
+		"per_space":                      bs,
+		"spaces_completed":               rep.RungsCompleted,
+		"max_preemption_bound_completed": restr,
+		"max_preemption_bound_completed_with_unlimited_free_switches": pure,
+		"schedules_executed_all_passes":                               total,
+		"determinism_proof_replays":                                   replays,
+		"explore_wall_s":                                              float64(int(rep.WallS*10)) / 10,
 	}
 }
